@@ -21,6 +21,9 @@ def run(ctx):
         dscommon.run_family(ctx, "C02Order", fmt="text", variant={"time_format": "datehour"}, limit=150, always_nontrivial=True)
         dscommon.run_family(ctx, "C02Order", fmt="text", variant={"time_format": "datehour", "row_order": "shuffle", "rng": rng}, limit=150, always_nontrivial=True)
         dscommon.run_family(ctx, "C02Sel", fmt="netcdf", limit=300, always_nontrivial=True)
+        # lead times that are not whole hours (every lead time divided by 8): each keeps its own slice and its own values (after seed C02-h)
+        dscommon.run_family(ctx, "C02Order", fmt="text", variant={"lead_scale": 0.125, "row_order": "shuffle", "rng": rng}, limit=150, always_nontrivial=True)
+        dscommon.run_family(ctx, "C02Repeat", fmt="auto", variant={"lead_scale": 0.125}, limit=150, always_nontrivial=True)
         dscommon.run_family(ctx, "C02Three", fmt="text", limit=200, always_nontrivial=True)
         dscommon.run_family(ctx, "C02Close", fmt="text", variant=shuffled, always_nontrivial=True)
         dscommon.run_family(ctx, "C02Close", fmt="netcdf", always_nontrivial=True)
@@ -37,6 +40,8 @@ def run(ctx):
         dscommon.run_family(ctx, "C02Repeat", fmt="auto", always_nontrivial=True)
         dscommon.run_family(ctx, "C02Sel", fmt="netcdf", always_nontrivial=True)
         dscommon.run_family(ctx, "C02Sel", fmt="text", variant=shuffled, always_nontrivial=True)
+        dscommon.run_family(ctx, "C02Order", fmt="text", variant={"lead_scale": 0.125, "row_order": "shuffle", "rng": rng}, always_nontrivial=True)
+        dscommon.run_family(ctx, "C02Repeat", fmt="auto", variant={"lead_scale": 0.125}, always_nontrivial=True)
         dscommon.run_family(ctx, "C02All", fmt="text", variant={"row_order": "reverse"}, always_nontrivial=True)
         dscommon.run_family(ctx, "C02Three", fmt="auto", always_nontrivial=True)
         dscommon.run_family(ctx, "C02Close", fmt="text", variant=shuffled, always_nontrivial=True)
